@@ -572,10 +572,10 @@ SCOPE = {
 
 # scenarios of a bounded stand-in shared by several properties: which failing inputs belong to which property
 WITNESS_SCOPE = {
-    "cconn": {"C09": r"^upload ", "C08": r"^bodyfile ", "C05": r"^pipeline "},
-    # the API-level model-based stand-in: every disagreement belongs to C05; the ones in a body read (the body handed out,
+    "cconn": {"C09": r"^(upload|pipebody) ", "C08": r"^bodyfile ", "C05": r"^(pipeline|pipebody) "},
+    # the API-level model-based stand-in: every disagreement belongs to C05; the ones in a body read, or in reading the request that follows one (the body handed out,
     # what is left for the next request) also to C03
-    "c05": {"C03": r"\((BV|BF\(\d+\))\)"},
+    "c05": {"C03": r"\((BV|BF\(\d+\))\)|ops=\S*B[VF]\S* expected=call \d+ \(RR\)"},
 }
 
 
